@@ -18,7 +18,10 @@ def gen_cases(chk):
                         allow=("calibrate", "checkpoint", "restore") if i % 4 else
                         ("calibrate", "checkpoint", "restore", "set_samplers", "set_scheduler"), rl=rl, prec_prob=6)
         if rl:
-            c["palette"] = [abs(x) + 0.125 for x in c["palette"]]      # reward is a relative improvement: keep losses > 0
+            # reward is a relative improvement (prev - new) / prev: keep losses >= 0 (no division by zero), but do
+            # include an exact zero, which is a legitimate best loss
+            c["palette"] = [abs(x) + 0.125 for x in c["palette"]] + ([0.0, 0.0] if i % 2 else [])
+            rng.shuffle(c["palette"])
         cases.append(c)
     # the four constructor combinations
     for has_s in (False, True):
@@ -38,12 +41,50 @@ def nontrivial(c, o):
     return max((v["batchidx"] for v in o["views"]), default=0) >= 3
 
 
+def bootstrap_cases(chk, stats):
+    """_add_or_get_bootstrap_sampler on real sampler objects vs rl_bootstrap in Coq, and the direct oracle."""
+    from black_it.samplers.halton import HaltonSampler
+    from black_it.schedulers.rl.rl_scheduler import RLScheduler
+    from common import clist, cnat
+
+    rng = chk.rng
+    lits, metas = [], []
+    for _ in range(60 if chk.tier == "quick" else 600):
+        n = rng.randint(1, 6)
+        specs = [{"cls": (cc.HALTON_CLASS if rng.below(4) == 0 else rng.below(5)), "uid": i, "bs": rng.randint(1, 3)} for i in range(n)]
+        objs = [cc.make_sampler(s) for s in specs]
+        new, hid = RLScheduler._add_or_get_bootstrap_sampler(objs)  # noqa: SLF001
+        new = list(new)
+        classes = [cc.class_id(o) for o in new]
+        stats["bootstrap:" + ("supplied" if cc.HALTON_CLASS in [s["cls"] for s in specs] else "added")] += 1
+        # direct oracle
+        sup = [s["cls"] for s in specs]
+        ok = type(new[hid]) is HaltonSampler and all(a is b for a, b in zip(new, objs)) and \
+            (len(new) == n if cc.HALTON_CLASS in sup else (len(new) == n + 1 and hid == n and new[-1].batch_size == 1))
+        if not ok:
+            chk.violation({"kind": "oracle", "clause": "rl-bootstrap-added"},
+                          {"failed": "oracle:rl-bootstrap", "detail": f"supplied classes {sup} -> {classes}, bootstrap index {hid}", "case": {"bootstrap": sup}})
+        lits.append(f"({clist([cnat(c) for c in sup])}, {clist([cnat(c) for c in classes])}, {cnat(hid)})")
+        metas.append(sup)
+    bad, errors = chk.coq_mismatches("C09boot", cc.IMPORTS, "check_bootstrap", "list nat * list nat * nat", lits, shard=200)
+    for i in bad:
+        chk.violation({"kind": "correspondence", "name": "rl_bootstrap"},
+                      {"failed": "correspondence:rl_bootstrap", "case": {"bootstrap": metas[i]}, "coq_case": lits[i]}, no_input=True)
+    for e in errors:
+        chk.violation({"kind": "correspondence", "name": "coqc"}, {"failed": "correspondence:coqc", "detail": e}, no_input=True)
+    return len(lits)
+
+
 def run(chk, replay=None):
     chk.proof_gate()
     cases = [json.loads(open(replay).read())["case"]] if replay else gen_cases(chk)
+    if replay and "bootstrap" in cases[0]:
+        cases = []
     obs, bad, stats, keys, nontriv = cf.run_traces(chk, cases, cf.oracle_c09, nontrivial, label="C09")
+    nboot = bootstrap_cases(chk, stats)
     cov = {
-        "evaluations": len(cases), "distinct": len(keys), "distinct_nontrivial": len(nontriv),
+        "evaluations": len(cases) + nboot, "distinct": len(keys), "distinct_nontrivial": len(nontriv),
+        "bootstrap_cases": nboot,
         "rule": "operation sequences on the real Calibrator with token samplers: round-robin line-ups of 1-6 samplers with splits "
                 "into several calibrate() calls, checkpoints and restores; RL scheduler with a scripted agent (with / without / with "
                 "several Halton samplers in the line-up); the four constructor argument combinations; non-trivial = at least 3 batches",
